@@ -273,6 +273,11 @@ var BigDocs = []BigDoc{
 	{"deep-objects-each-after-an-object-sibling", func(n int) []byte {
 		return []byte(strings.Repeat(`{"a":{},"b":`, n) + "1" + strings.Repeat("}", n))
 	}},
+	// very many small containers of the OTHER kind, each closed right after a nested one of the
+	// skipper's own kind (seeded change C11r8-m1: a counter of foreign brackets that misses one
+	// decrement per element and reaches the depth limit after ~10,000 elements)
+	{"many-objects-each-holding-an-array", func(n int) []byte { return []byte("[" + strings.Repeat(`{"a":[1]},`, n/5) + `{"a":[1]}]`) }},
+	{"many-arrays-each-holding-an-object", func(n int) []byte { return []byte(`{"k":[` + strings.Repeat(`[{"a":1}],`, n/5) + `[{}]]}`) }},
 	{"long-plain-string-then-brackets-in-strings", func(n int) []byte {
 		return []byte(`["` + strings.Repeat("a", n) + `","]","}",{"k":"}"},"\"]"]`)
 	}},
